@@ -39,6 +39,7 @@ func ruleC12(w *World, r *Report) {
 		"R12.6 handleAssociationSetupRequest: cause accepted ⇔ upf.isConnected() edge, association state (remote node id / recovery time stamp) stored only on the connected branch; associationIEs: feature helpers called under exactly their configuration flags, each helper sets its (octet, bit) per TS 29.244 §8.2.25 with an adequate length guard, and the feature slice is long enough for every helper."
 	r.Explanation += " R12.1 accepts the retry loop in both spellings (counter counting down from, or attempts counting up to, maxReqRetries) and proves ≤ 1+N transmissions for either; a narrow attempt counter must not be able to wrap (WRAP); R12.8 the reader hands a time-out to Serve only for an expired read deadline."
 	r.Explanation += " R12.9 each datagram is handled from a slice allocated after it was read; R12.10 setConnectedStatus(true) only behind initialize() == nil."
+	r.Explanation += " R12.1 also accepts retries counted up inside the loop body (third spelling)."
 	r.NotDecided = "real-time spacing of retransmissions, loss patterns, scheduling"
 	sendReq := w.Fn(P, "pfcpiface.(*PFCPConn).sendPFCPRequestMessage")
 	send := w.Fn(P, "pfcpiface.(*PFCPConn).SendPFCPMsg")
@@ -245,7 +246,7 @@ func ruleC12(w *World, r *Report) {
 	if counter == nil && up == nil {
 		r.bad("R12.1", sn, "retry counter", w.Pos(sendReq.Pos()), "no loop counter initialised from maxReqRetries and decremented by 1 (or counting up to it) was found: the number of transmissions is not bounded by 1+max_req_retries")
 	} else if counter != nil {
-		r.ok("R12.1", sn, "retry counter = φ(maxReqRetries, counter-1)", w.Pos(counter.Pos()), "found")
+		r.ok("R12.1", sn, ifelse(upInner, "retries done = φ(0, done+1), tested against maxReqRetries", "retry counter = φ(maxReqRetries, counter-1)"), w.Pos(counter.Pos()), "found")
 		hdr := counter.Block()
 		positive := func(a, b *ssa.BasicBlock) bool {
 			x, op, y, ok := edgeFact(a, b)
